@@ -35,7 +35,7 @@ def floors(tier):
     return {"decoded": 20000, "M1.recounts": 20000, "M2.writes": 20000,
             "M3.next_atom_state": 20000, "set:transitions": 20,
             "rdkit_judged": 200, "g2.atoms>=50": 20, "g2.rings>=10": 20,
-            "tables": 20, "f1_witness_seen": 1, "table_walk_steps": 300}
+            "tables": 20, "f1_witness_seen": 1, "table_walk_steps": 300, "repeat_and_flag_variants": 2000}
 
 
 def _in_domain(tokens, table):
@@ -88,6 +88,16 @@ class Judge(object):
             ctx.case((self.tname, x), False)
             return None
         out = r[1]
+        if src != "G1" and not src.startswith("G1:") and ctx.rng.random() < 0.06:
+            # the same string once more, and with the other flag combinations: each returned SMILES is judged like
+            # the first (and must be the same text)
+            for fl in ({}, {"attribute": True}, {"compatible": True}):
+                r2 = call_guard(lambda: sf.decoder(x, **fl), expected=(sf.DecoderError,))
+                got = r2[1][0] if (r2[0] == "ok" and fl.get("attribute")) else (r2[1] if r2[0] == "ok" else None)
+                ctx.count("repeat_and_flag_variants")
+                if got != out:
+                    ctx.finding("repeated-or-flagged-call-differs", dict(payload, flags=fl, output=out[:500]),
+                                "first call %r, then with %r: %r" % (out[:200], fl, repr(r2)[:200]))
         status, mol, detail = judge_output(out, self.table)
         ctx.count("decoded")
         nontrivial = False
